@@ -11,6 +11,7 @@ mod invite;
 mod mediaw;
 mod crashw;
 mod wrap;
+mod msgwin;
 
 fn main() {
     let args: Vec<String> = std::env::args().collect();
@@ -28,6 +29,7 @@ fn main() {
         Some("crash") => crash::main(&args[2..]),
         Some("codec") => codec::main(&args[2..]),
         Some("wrap") => wrap::main(&args[2..]),
+        Some("msgwin") => msgwin::main(&args[2..]),
         _ => {
             eprintln!("usage: vh store [--file] < ops");
             2
